@@ -267,7 +267,10 @@ impl CelsData<RawPixels> {
         }
         let validate_ref = |id: CelId| {
             let index = id.frame as usize * num_layers + id.layer as usize;
-            if is_linkable_cel[index] {
+            if (id.frame as u32) < num_frames
+                && (id.layer as usize) < num_layers
+                && is_linkable_cel[index]
+            {
                 Ok(())
             } else {
                 Err(AsepriteParseError::InvalidInput(format!(
